@@ -25,6 +25,22 @@ def fresh_name(base: str) -> str:
 # ----------------------------------------------------------------------------- kinds -> sorts
 
 _sort_cache: dict = {}
+# Strings are modelled either by the SMT string theory (kind 'str') or, when only equality and a few opaque
+# operations matter, by an uninterpreted sort (kind 'pstr'): far cheaper under quantifiers, and an abstraction
+# (every fact proved holds for real strings, since the opaque operations are consistent with the real ones).
+STRING_MODE = ['theory']
+PSTR = z3.DeclareSort('PyStr')
+PCONCAT = z3.Function('pstr_concat', PSTR, PSTR, PSTR)
+PCONTAINS = z3.Function('pstr_contains', PSTR, PSTR, z3.BoolSort())
+PLEN = z3.Function('pstr_len', PSTR, z3.IntSort())
+PLE = z3.Function('pstr_le', PSTR, PSTR, z3.BoolSort())
+LITERALS: dict = {}
+
+
+def pstr_lit(s: str):
+    if s not in LITERALS:
+        LITERALS[s] = z3.Const('lit:' + repr(s), PSTR)
+    return LITERALS[s]
 
 
 def kind_name(k) -> str:
@@ -45,6 +61,8 @@ def sort_of(k):
         s = z3.BoolSort()
     elif k == 'str':
         s = z3.StringSort()
+    elif k == 'pstr':
+        s = PSTR
     elif isinstance(k, tuple) and k[0] == 'tuple':
         dt = z3.Datatype(kind_name(k))
         dt.declare('mk_' + kind_name(k), *[(f'f{i}_{kind_name(k)}', sort_of(x)) for i, x in enumerate(k[1:])])
@@ -119,14 +137,25 @@ class VBool(V):
 
 
 class VStr(V):
-    kind = 'str'
-
     def __init__(self, t):
         if isinstance(t, str):
-            t = z3.StringVal(t)
+            t = pstr_lit(t) if STRING_MODE[0] == 'opaque' else z3.StringVal(t)
         self.t = t
 
+    @property
+    def kind(self):
+        return 'pstr' if self.t.sort() == PSTR else 'str'
+
+    @property
+    def opaque(self):
+        return self.t.sort() == PSTR
+
     def concrete(self):
+        if self.opaque:
+            for k, v in LITERALS.items():
+                if v.eq(self.t):
+                    return k
+            return None
         t = z3.simplify(self.t)
         if z3.is_string_value(t):
             return t.as_string()
@@ -286,7 +315,7 @@ def to_term(v: V, k=None):
             return z3.If(v.t, z3.RealVal(1), z3.RealVal(0))
     if k == 'bool' and isinstance(v, VBool):
         return v.t
-    if k == 'str' and isinstance(v, VStr):
+    if k in ('str', 'pstr') and isinstance(v, VStr):
         return v.t
     if isinstance(k, tuple) and k[0] == 'tuple' and isinstance(v, VTuple):
         s = sort_of(k)
@@ -317,7 +346,7 @@ def from_term(t, k) -> V:
         return VReal(t)
     if k == 'bool':
         return VBool(t)
-    if k == 'str':
+    if k in ('str', 'pstr'):
         return VStr(t)
     if isinstance(k, tuple) and k[0] == 'tuple':
         s = sort_of(k)
@@ -354,6 +383,8 @@ def fresh_value(k, base='v') -> V:
         return VBool(z3.Bool(n))
     if k == 'str':
         return VStr(z3.String(n))
+    if k == 'pstr':
+        return VStr(z3.Const(n, PSTR))
     if k == 'none':
         return VNone()
     if isinstance(k, tuple):
@@ -401,7 +432,8 @@ def parse_kind(s):
 
     def go(n):
         if isinstance(n, _ast.Name):
-            m = {'int': 'int', 'float': 'real', 'real': 'real', 'bool': 'bool', 'str': 'str', 'none': 'none',
+            m = {'int': 'int', 'float': 'real', 'real': 'real', 'bool': 'bool',
+                 'str': 'pstr' if STRING_MODE[0] == 'opaque' else 'str', 'none': 'none',
                  'int32': 'int', 'uint32': 'int', 'float32': 'real', 'b1': 'bool'}
             if n.id in m:
                 return m[n.id]
